@@ -218,10 +218,23 @@ fn handle(mut stream: TcpStream, shared: Arc<Mutex<Shared>>) {
         let (hole_at, base) = hole;
         let flen = base + file.len() as u64;
         let (status, mut body): (u16, Vec<u8>) = match range {
-            // (a zero prefix is never materialised beyond 1 MiB per response)
-            Some((a, b)) if a < flen && a <= b && b.min(flen - 1) - a < (1 << 20) + file.len() as u64 => {
-                let e = b.min(flen - 1);
-                (206, (a..=e).map(|p| if p < hole_at { file[p as usize] } else if p < hole_at + base { 0 } else { file[(p - base) as usize] }).collect())
+            // (no more than 128 MiB of a hole are materialised per response)
+            Some((a, b)) if a < flen && a <= b && b.min(flen - 1) - a < (128 << 20) + file.len() as u64 => {
+                let e = b.min(flen - 1) + 1; // exclusive
+                let mut body: Vec<u8> = Vec::with_capacity((e - a) as usize);
+                // part before the hole, the hole, part after the hole
+                if a < hole_at {
+                    body.extend_from_slice(&file[a as usize..e.min(hole_at) as usize]);
+                }
+                let (hs, he) = (a.max(hole_at), e.min(hole_at + base));
+                if hs < he {
+                    body.resize(body.len() + (he - hs) as usize, 0);
+                }
+                if e > hole_at + base {
+                    let s0 = a.max(hole_at + base) - base;
+                    body.extend_from_slice(&file[s0 as usize..(e - base) as usize]);
+                }
+                (206, body)
             }
             Some(_) => (416, vec![]),
             None if base > 0 => (416, vec![]),
